@@ -40,7 +40,7 @@ from pycdlib import utils
 
 # For mypy annotations
 if False:  # pylint: disable=using-constant-test
-    from typing import Any, BinaryIO, Callable, Deque, Dict, Generator, IO, List, Optional, Tuple, Union  # NOQA pylint: disable=unused-import
+    from typing import Any, BinaryIO, Callable, Deque, Dict, Generator, IO, List, Optional, Set, Tuple, Union  # NOQA pylint: disable=unused-import
 
 # There are a number of specific ways that numerical data is stored in the
 # ISO9660/Ecma-119 standard.  In the text these are reference by the section
@@ -1018,9 +1018,17 @@ class PyCdlib:
         parent_links = []
         child_links = []
         lastbyte = 0
+        walked_extents = set()  # type: Set[int]
         dirs = collections.deque([root_dir_record])
         while dirs:
             dir_record = dirs.popleft()
+
+            # A directory that is reachable more than once means that the
+            # directory hierarchy on the ISO contains a loop (or is otherwise
+            # corrupt); walking it again would never terminate.
+            if dir_record.extent_location() in walked_extents:
+                raise pycdlibexception.PyCdlibInvalidISO('More than one directory record refers to the directory at extent %d; ISO is corrupt' % (dir_record.extent_location()))
+            walked_extents.add(dir_record.extent_location())
 
             self._seek_to_extent(dir_record.extent_location())
             length = dir_record.get_data_length()
@@ -2096,12 +2104,17 @@ class PyCdlib:
                                                 self.udf_file_set.root_dir_icb.log_block_num,
                                                 None)
 
+        walked_extents = set()  # type: Set[int]
         udf_file_entries = collections.deque([self.udf_root])
         while udf_file_entries:
             udf_file_entry = udf_file_entries.popleft()
 
             if udf_file_entry is None:
                 continue
+
+            if udf_file_entry.extent_location() in walked_extents:
+                raise pycdlibexception.PyCdlibInvalidISO('More than one UDF File Identifier refers to the directory at extent %d; ISO is corrupt' % (udf_file_entry.extent_location()))
+            walked_extents.add(udf_file_entry.extent_location())
 
             for desc in udf_file_entry.alloc_descs:
                 abs_file_ident_extent = part_start + desc.log_block_num
@@ -2365,6 +2378,25 @@ class PyCdlib:
             self.version_vd = version_vd
 
         self._initialized = True
+
+    def _open_fp_checked(self, fp):
+        # type: (IO) -> None
+        """
+        An internal method to open an existing ISO, making sure that a damaged
+        or truncated ISO is reported with the documented exception type.
+
+        Parameters:
+         fp - The file object containing the ISO to open up.
+        Returns:
+         Nothing.
+        """
+        try:
+            self._open_fp(fp)
+        except (struct.error, IndexError, KeyError, ValueError, OverflowError) as e:
+            # The parsers trust the lengths and locations they read off of the
+            # ISO; when those are nonsense (short reads, locations that were
+            # never seen, text where a number should be), the ISO is corrupt.
+            raise pycdlibexception.PyCdlibInvalidISO('Invalid or truncated ISO (%s: %s)' % (type(e).__name__, str(e))) from e
 
     def _get_and_write_fp(self, iso_path, outfp, blocksize):
         # type: (bytes, BinaryIO, int) -> None
@@ -4114,7 +4146,7 @@ class PyCdlib:
         fp = open(filename, mode)  # pylint: disable=consider-using-with,unspecified-encoding
         self._managing_fp = True
         try:
-            self._open_fp(fp)
+            self._open_fp_checked(fp)
         except Exception:
             fp.close()
             raise
@@ -4136,7 +4168,7 @@ class PyCdlib:
         if self._initialized:
             raise pycdlibexception.PyCdlibInvalidInput('This object already has an ISO; either close it or create a new object')
 
-        self._open_fp(fp)
+        self._open_fp_checked(fp)
 
     def get_file_from_iso(self, local_path, **kwargs):
         # type: (str, Union[str, int]) -> None
